@@ -329,8 +329,27 @@ def run_reject_case(a):
             else:
                 camel = {"validationLibrary": cfg.get("validation_library"), "projectPath": cfg.get("project_path")}
                 json.dump({"plugins": {"typegen": {k: v for k, v in camel.items() if v}}}, open(os.path.join(app, "tauri.conf.json"), "w"))
+        if kind.startswith("init-"):
+            # the same rejections on the `init` entry path, which writes a configuration document before it generates:
+            # an invalid setting must be refused before that document (or anything else) is touched
+            argv = [cli, "tauri-typegen", "init", "-g", "./gen"]
+            json.dump({"productName": "app", "plugins": {"other": {"keep": [1, 2, 3]}}}, open(os.path.join(app, "src-tauri", "tauri.conf.json"), "w"))
+            if source == "-c":
+                argv += ["-o", "typegen.custom.json"]
+            if kind == "init-bad-validation":
+                argv += ["-v", "yup"]
+            elif kind == "init-missing-project":
+                argv += ["-p", "./does-not-exist"]
+            elif kind == "init-refused-existing-file":
+                if source == "-c":
+                    open(os.path.join(app, "typegen.custom.json"), "w").write('{"project_path": "./src-tauri", "note": "mine"}')
+                else:
+                    os.unlink(os.path.join(app, "src-tauri", "tauri.conf.json"))     # default target: tauri.conf.json must already exist
+            argv_tail = []
+        else:
+            argv_tail = ["-o", "./gen"]
         before = fsmon.snapshot(root)
-        r = common.run(argv + ["-o", "./gen"], cwd=app)
+        r = common.run(argv + argv_tail, cwd=app)
         after = fsmon.snapshot(root)
         d = fsmon.diff(before, after)
         viol = []
@@ -391,6 +410,7 @@ def run(tier):
     rjobs = [(cli, kind, source) for kind in ("file-project-missing-but-flag-valid", "file-validation-bad-but-flag-valid") for source in ("tauri.conf.json", "-c")]
     rjobs += [(cli, kind, source) for kind in ("bad-validation-flag", "bad-validation-file", "missing-project-flag", "missing-project-file", "missing-project-default", "missing-config-file")
              for source in ("tauri.conf.json", "-c")]
+    rjobs += [(cli, kind, source) for kind in ("init-bad-validation", "init-missing-project", "init-refused-existing-file") for source in ("tauri.conf.json", "-c")]
     for (job, r) in zip(rjobs, common.pmap(run_reject_case, rjobs)):
         v.case(("reject", job[1], job[2]), nontrivial=True, sample={"kind": "rejection", "case": r["label"]} if len(v.samples) < 8 else None)
         v.count("rejection_cases")
